@@ -303,7 +303,10 @@ macro_rules! g_keylen {
                 vassume!(len <= $max);
                 let accepted = generic::as_idx($accepted);
                 let r = <$ty as cipher::KeyInit>::new_from_slice(&inp[..len]);
-                Some(r.is_ok() == accepted(len))
+                let ok = r.is_ok();
+                // no Drop: on zeroize builds dropping a 4 kB Blowfish costs a volatile-write loop that dominates the query
+                core::mem::forget(r);
+                Some(ok == accepted(len))
             }
         }
     };
@@ -327,8 +330,12 @@ macro_rules! g_keylen0 {
                 vassume!(len <= $max);
                 let accepted = generic::as_idx($accepted);
                 let buf = [0u8; $max];
+                // (pinning the length to one value per path was tried: 301 unrolled constructor calls are far heavier than one
+                // call with a symbolic-length slice)
                 let r = <$ty as cipher::KeyInit>::new_from_slice(&buf[..len]);
-                Some(r.is_ok() == accepted(len))
+                let ok = r.is_ok();
+                core::mem::forget(r);
+                Some(ok == accepted(len))
             }
         }
     };
